@@ -10,6 +10,7 @@ literal grammar beyond the modelled subset is Python's (trusted, not generated).
 -/
 import QuantityModel.Proofs.Text
 import QuantityModel.Model.Quantity
+import QuantityModel.Proofs.Quantity
 namespace QM.Props.C18
 open QM
 
@@ -74,5 +75,52 @@ theorem surrounding_blanks_ignored :
 
 /-- non-vacuity of the round trip on a compound, non-ASCII symbol -/
 example : String.ofList (renderQty (.dec (-150) 2) "µm/s²") = "-1.50 µm/s²" := by decide +kernel
+
+/-! ### which quantity a text constructs (`parseQuantity`, executed by the driver) -/
+
+section Construct
+open QM.QState
+variable {s : QState} {d : Rounding}
+
+/-- **parsing with an explicit different unit equals parsing and then
+converting**: text naming unit `u`, explicit unit `ua ≠ u`: the quantity `amt u`
+(of `u`'s own type) is built and converted to `ua` — whatever that conversion
+does (exact ratio of scales, a registered converter, UnitConversionError,
+IncompatibleUnitsError) -/
+theorem parse_with_other_unit_is_parse_then_convert (cls : Option Nat) (amt : ℚ) (u ua : Nat)
+    (h : u ≠ ua) (q0 : Qty) (hq : s.reg.mkQty d (some (s.reg.unitCls u)) amt u = .ok q0) :
+    s.parseQuantity d cls amt (some u) (some ua) = s.convert d q0 ua := by
+  unfold QState.parseQuantity
+  have : (u == ua) = false := by simpa using h
+  simp only [this, Bool.false_eq_true, ↓reduceIte, hq]
+
+/-- the same explicit unit as in the text, or no explicit unit: constructed in
+the text's unit through the factory that was called (a type other than the
+unit's own is rejected by the constructor: QuantityError) -/
+theorem parse_with_same_unit (cls : Option Nat) (amt : ℚ) (u : Nat) :
+    s.parseQuantity d cls amt (some u) (some u) = s.reg.mkQty d cls amt u ∧
+    s.parseQuantity d cls amt (some u) none = s.reg.mkQty d cls amt u := by
+  unfold QState.parseQuantity; simp
+
+/-- text without symbol: the explicit unit, else the type's reference unit,
+else (generic factory, or a type without reference unit) QuantityError -/
+theorem parse_without_symbol (cls : Option Nat) (amt : ℚ) :
+    (∀ ua, s.parseQuantity d cls amt none (some ua) = s.reg.mkQty d cls amt ua) ∧
+    (cls = none → s.parseQuantity d cls amt none none = .error .QuantityError) ∧
+    (∀ c, cls = some c → (s.reg.cls c).refUnit = none →
+      s.parseQuantity d cls amt none none = .error .QuantityError) ∧
+    (∀ c ru, cls = some c → (s.reg.cls c).refUnit = some ru →
+      s.parseQuantity d cls amt none none = s.reg.mkQty d cls amt ru) := by
+  refine ⟨fun ua => ?_, fun h => ?_, fun c h hr => ?_, fun c ru h hr => ?_⟩ <;>
+    unfold QState.parseQuantity <;> simp_all
+
+/-- through the factory of another type the text is rejected: QuantityError -/
+theorem parse_through_other_type_rejected (c : Nat) (amt : ℚ) (u : Nat) (h : c ≠ s.reg.unitCls u) :
+    s.parseQuantity d (some c) amt (some u) none = .error .QuantityError := by
+  unfold QState.parseQuantity RegState.mkQty
+  have : (c != s.reg.unitCls u) = true := by simpa using h
+  simp [this]
+
+end Construct
 
 end QM.Props.C18
